@@ -184,6 +184,9 @@ func (w *World) verifyContract(con *Contract, opts *RunOpts) (res *FuncResult) {
 					if k >= len(o.Rets) {
 						panic(specPanic{scl.Pos + ": no such result"})
 					}
+					if strings.TrimSpace(scl.Raw[eq+1:]) == "anystring" {
+						continue
+					}
 					var alts []*T
 					for _, a := range strings.Split(scl.Raw[eq+1:], "|") {
 						n, err := parseExpr(strings.TrimSpace(a), scl.Pos)
